@@ -32,7 +32,8 @@ Max(a, b) == IF a > b THEN a ELSE b
 
 J_end(e) ==
     IF rejected \ rejClosed # {} THEN "rejected-connection-not-closed"
-    ELSE IF cfg.onClose /\ removed \ closeCalled # {} THEN "close-callback-missing-for-a-served-connection"
+    ELSE IF cfg.onClose /\ (added \cup removed) \ closeCalled # {} THEN "close-callback-missing-for-a-served-connection"
+    ELSE IF added \ removed # {} THEN "served-connection-never-removed-from-the-live-connection-accounting"
     ELSE IF sdNil /\ serveRet # "closed" THEN "serve-did-not-return-the-server-closed-error-after-shutdown"
     ELSE IF sdNil /\ e.dialAfter THEN "listener-still-accepting-after-shutdown"
     ELSE IF sdNil /\ {e.open[i] : i \in DOMAIN e.open} \cap accepted # {} THEN "connection-left-open-after-graceful-shutdown"
